@@ -216,6 +216,23 @@ func genC08(env *core.Env, emit func(core.Case)) {
 		}
 		run(mut, r.IntN(4) != 0, client, chunks, backendFlight())
 	}
+	// a ServerHello / HelloRetryRequest cut at every byte offset (lengths re-framed), and a TLS 1.2 style
+	// ServerHello without an extensions field, written to an accepted Conn
+	{
+		_, sealed := validTuple()
+		for _, hrr := range []bool{false, true} {
+			sh := gen.ServerHelloRecord(r, hrr, sealed.Outer.SID)
+			body := sh[9:] // after record header (5) and handshake header (4)
+			for cut := 0; cut <= len(body); cut++ {
+				if !env.Thorough() && cut%2 == 1 && cut < len(body)-4 {
+					continue
+				}
+				msg := gen.Cat([]byte{2}, gen.U24(cut), body[:cut])
+				rec := gen.Record(22, 0x0303, msg)
+				run("shTruncated", true, sealed.Rec, oneChunk(sealed.Rec), [][]byte{rec, gen.Record(23, 0x0303, gen.RandBytes(r, 20))})
+			}
+		}
+	}
 	// retried hellos of every kind (well-formed and ill-formed), drained with several read sizes
 	for rep := 0; rep < env.Pick(2, 12); rep++ {
 		for _, rc := range retryCases(r) {
